@@ -29,5 +29,19 @@ Theorem C07_array_iteration : exists e, coerce G RIter (coll_obj "Array" 0) (col
 Proof. exact array_iteration_raises. Qed.
 Print Assumptions C07_array_iteration.
 
+(* comparing / testing membership against a plain Python value (0, 1, True, None, 'a', 0.5), in both
+   operand orders, raises as well: no fallback to identity comparison *)
+Theorem C07_scalars_vs_plain : forall t pname p r c, literal t = false ->
+  In (pname, p) plain_values -> In r [RChained; RMinMax; RMember] ->
+  In c (coerce_plain G r (operand t 1 0) p) -> exists e, c = Raises e.
+Proof. exact scalars_vs_plain_values. Qed.
+Print Assumptions C07_scalars_vs_plain.
+
+Theorem C07_collections_vs_plain : forall cls pname p r c, In cls collection_classes ->
+  In (pname, p) plain_values -> In r [RChained; RMinMax; RMember] ->
+  In c (coerce_plain G r (coll_obj cls 0) p) -> exists e, c = Raises e.
+Proof. exact collections_vs_plain_values. Qed.
+Print Assumptions C07_collections_vs_plain.
+
 Example C07_nonvacuous : literal (MSecret, BInt) = false /\ In "Array" collection_classes.
 Proof. split; [reflexivity | simpl; auto]. Qed.
